@@ -8,7 +8,7 @@ import warnings
 
 from ..lib.term import Con, Some, canon, norm, to_text
 from ..lib.universe import Built, gen_universe, iter_nodes, universe_from_json, universe_to_json
-from .c08 import PatGen, enc_multi, enc_res, gen_forest, kind_of_message, norm_res
+from .c08 import PatGen, enc_multi, enc_res, gen_forest, kind_of_message, norm_res, poison
 from .c15 import mk_origin
 
 try:  # import cost (lark builds two parsers) stays outside the per-case alarm of the worker
@@ -373,6 +373,7 @@ def impl_case(t, case):
     v = kind_of_message(msg)
     if ok != (v.name == "Ok"):
         v = Con("Inconsistent", ok, msg[:40])
+    poison(text)
     for d in decoys(text):
         try:
             P.NodeMatcher.from_pattern(d)
